@@ -566,6 +566,86 @@ fn storage_reuse(rng: &mut Rng, ev: &mut Ev, case: u64) {
     }
 }
 
+/// Endurance: one interpolator answers tens of millions of look-ups confined to the regular
+/// part of an almost uniform axis (anything it might "learn" from its own history gets every
+/// chance to settle), then the probes - next to the displaced knots, exactly at knots, at the
+/// ends - must still be answered exactly like a fresh interpolator answers them.
+fn endurance(ev: &mut Ev, seed: u64, lookups: usize) {
+    use vh::ndarray_interp::interp2d::Interp2D;
+    let mut rng = Rng::derive(seed, "C17-endurance", &[0]);
+    for round in 0..3u64 {
+        let n = 12 + rng.below(20);
+        let h = *rng.pick(&[1.0, 0.1, 0.3, 0.25]);
+        let mut x: Vec<f64> = (0..n).map(|i| i as f64 * h).collect();
+        // displaced knots in the right half only
+        for k in n / 2 + 1..n - 1 {
+            if rng.chance(0.4) {
+                x[k] += h * (rng.f01() * 0.8 - 0.4);
+            }
+        }
+        let data: Vec<f64> = x.iter().map(|v| v * v + 1.0).collect();
+        let mk = || Interp1DBuilder::new(Array1::from(data.clone())).x(Array1::from(x.clone())).strategy(Linear::new()).build().unwrap();
+        let g = vh::ndarray::Array2::from_shape_fn((n, n), |(i, j)| x[i] * 3.0 + x[j] * x[j]);
+        let mk2 = || Interp2D::builder(g.clone()).x(Array1::from(x.clone())).y(Array1::from(x.clone())).build().unwrap();
+        let mut probes: Vec<f64> = x.clone();
+        for w in x.windows(2) {
+            probes.push(w[0] + (w[1] - w[0]) * rng.f01());
+            probes.push(w[1].next_down());
+        }
+        let (fresh, fresh2) = (mk(), mk2());
+        let want: Vec<(usize, u64, (usize, usize), u64)> = probes
+            .iter()
+            .map(|&q| (fresh.get_index_left_of(q), fresh.interp_scalar(q).unwrap().to_bits(), fresh2.get_index_left_of(q, x[n - 1] - q + x[0]), fresh2.interp_scalar(q, x[n - 1] - q + x[0]).unwrap().to_bits()))
+            .collect();
+        let (old, old2) = (mk(), mk2());
+        // the regular part: strictly inside the first half of the axis
+        let (lo, hi) = (x[0] + h * 0.01, x[n / 2 - 1]);
+        let mut acc = 0usize;
+        let mut q = lo;
+        let step = (hi - lo) / 1021.0;
+        // first half: cell centres of the regular part (a guess can hardly be more right);
+        // second half: a fine sweep through the same part
+        let cells = n / 2 - 1;
+        for i in 0..lookups / 2 {
+            let c = (i % cells) as f64 + 0.5;
+            acc = acc.wrapping_add(old.get_index_left_of(x[0] + c * h));
+            if i % 8 == 0 {
+                let (a, b) = old2.get_index_left_of(x[0] + c * h, x[0] + 0.5 * h);
+                acc = acc.wrapping_add(a + b);
+            }
+        }
+        for i in 0..lookups / 2 {
+            acc = acc.wrapping_add(old.get_index_left_of(q));
+            if i % 4 == 0 {
+                let (a, b) = old2.get_index_left_of(q, lo + (hi - q));
+                acc = acc.wrapping_add(a + b);
+            }
+            q += step;
+            if q >= hi {
+                q = lo + step * 0.37;
+            }
+        }
+        ev.add("endurance_lookups", (lookups + lookups / 4) as u64);
+        std::hint::black_box(acc);
+        for (k, &p) in probes.iter().enumerate() {
+            ev.add("endurance_probes", 1);
+            let got = (old.get_index_left_of(p), old.interp_scalar(p).unwrap().to_bits(), old2.get_index_left_of(p, x[n - 1] - p + x[0]), old2.interp_scalar(p, x[n - 1] - p + x[0]).unwrap().to_bits());
+            if got != want[k] {
+                ev.violation(
+                    "C17:depends-on-earlier-queries",
+                    &format!(
+                        "after {lookups} look-ups in the regular part of x={:?}: probe q={p:?} answered (interval {}, value {:?}; 2-D cell {:?}, value {:?}), a fresh interpolator (interval {}, value {:?}; 2-D cell {:?}, value {:?})",
+                        x, got.0, f64::from_bits(got.1), got.2, f64::from_bits(got.3), want[k].0, f64::from_bits(want[k].1), want[k].2, f64::from_bits(want[k].3)
+                    ),
+                    9_970_000 + round,
+                    J::obj().set("phase", "endurance").set("lookups", lookups),
+                );
+                return;
+            }
+        }
+    }
+}
+
 fn main() {
     let args = Args::parse("C17");
     let n_cases = args.budget(24, 600);
@@ -700,6 +780,9 @@ fn main() {
                 run_scenario(&sc, &ops, &mut rng, &mut ev, case, &mut sigs, max_threads, perms, hammer_iters);
             }
         }
+    }
+    if args.blocks() {
+        endurance(&mut ev, args.seed, if cfg!(miri) { 2_000 } else if args.leg != "native" { 1 << 21 } else if args.thorough() { 1 << 27 } else { 1 << 23 });
     }
     ev.add("distinct_interleavings_with_overlap", sigs.len() as u64);
     ev.add("history_length", hist_len as u64);
